@@ -295,7 +295,16 @@ class Puppet:
                     v = 'bad-sa-' + bv
                 spi_len = 8 if is_ike else 4
                 spi = None
-                if v == 'honest' and r.random() < 0.12:
+                fw = forced_which if (v == 'honest' and isinstance(forced_which, str)) else None
+                if fw is not None and fw.startswith('spi-len-'):
+                    spi_len = int(fw.split(':')[0][8:])                                           # forced: an SPI of the wrong size ...
+                    v = 'spi-len-%d' % spi_len
+                    self.follow_up = fw.split(':')[1]                                             # ... followed by that deletion
+                elif fw is not None and fw.startswith('spi-same'):
+                    spi = bytes(offered.spi)
+                    v = 'spi-same-as-yours'
+                    self.follow_up = fw.split(':')[1]
+                elif v == 'honest' and r.random() < 0.12:
                     spi_len = r.choice([0, 1, 3, 5, 8, 16] if not is_ike else [0, 4, 7, 9])      # an SPI of the wrong size in an otherwise valid answer
                     v = 'spi-len-%d' % spi_len
                     self.follow_up = r.choice(['delete-ike', 'delete-kids'])
